@@ -1,8 +1,8 @@
 #!/usr/bin/env python3
 """Writes MANIFEST.json from checkcfg.PROPS + manifest_meta.py (level texts). Run after editing either."""
 import json, subprocess
-from checkcfg import PROPS
-from manifest_meta import META, NOT_APPLICABLE_REASON, HOOK_COMMITS
+from checkcfg import PROPS, META
+from manifest_meta import NOT_APPLICABLE_REASON, HOOK_COMMITS
 
 ids = [json.loads(l)["id"] for l in open("properties.jsonl")]
 checks, na = [], []
